@@ -1370,7 +1370,11 @@ def _(it, a, info):
         try:
             f = float(t)
             if re.match(r'^[+-]?(\d+\.?\d*([eE][+-]?\d+)?|\.\d+([eE][+-]?\d+)?)$', t):
-                return Ok(F32('fin', z3.IntVal(int(round(f * 1000)))))
+                if abs(f) > 3.4028235e38:
+                    return Ok(F32('inf' if f > 0 else 'ninf'))
+                m = int(round(f * 1000))
+                m = max(min(m, (1 << 31) - 1), -(1 << 31))
+                return Ok(F32('fin', z3.BitVecVal(m, 32)))
         except ValueError:
             pass
         return Err(Struct('ParseFloatError', []))
@@ -2014,7 +2018,7 @@ def _scalar_pair(a):
 def _(it, a, info):
     x, y = deref(it, a[0]) if isinstance(a[0], Ref) else a[0], deref(it, a[1]) if isinstance(a[1], Ref) else a[1]
     if not (z3.is_bv(x) and z3.is_bv(y)):
-        raise Unsupported('min/max on non-integers')
+        raise Unsupported('min/max on non-integers: %r, %r (%s)' % (x, y, info.get('text')))
     lt = z3.ULT(x, y)
     if info['method'] == 'min':
         return z3.simplify(z3.If(lt, x, y))
@@ -2458,3 +2462,84 @@ def _(it, a, info):
             return Ok(Buf(v.arr, v.len, v.maxlen, 'String'))
         return Ok(s)
     return Err(Struct('FromUtf8Error', [v]))
+
+
+# ------------------------------------------------------------------------------ hex formatting, slice copies (chunked_transfer::Encoder)
+
+class HexStr(Opaque):
+    def __init__(self, val, upper=False):
+        Opaque.__init__(self, 'HexStr')
+        self.val = val
+        self.upper = upper
+
+
+@model('Argument::new_lower_hex', 'Argument::new_upper_hex', 'rt::Argument::new_lower_hex', 'rt::Argument::new_upper_hex')
+def _(it, a, info):
+    return Opaque('FmtArg', value=a[0], how=info['method'])
+
+
+_render_display_plain = render_display
+
+
+def render_display(it, v, how='new_display'):
+    if how in ('new_lower_hex', 'new_upper_hex'):
+        x = deref(it, v)
+        c = conc(x)
+        if c is not None:
+            t = ('%X' if how == 'new_upper_hex' else '%x') % c
+            return [whole(Buf.from_bytes(t.encode()), True)]
+        return [HexStr(x, how == 'new_upper_hex')]
+    return _render_display_plain(it, v)
+
+
+def _arguments_new(it, a, info):
+    tpl = as_slice(it, a[0]).concrete()
+    argv = deref(it, a[1])
+    if isinstance(argv, ListSlice):
+        argl = argv.vec.items[argv.start:argv.end]
+    elif isinstance(argv, Struct):
+        argl = argv.fields
+    else:
+        raise Unsupported('fmt args %r' % (argv,))
+    pieces = []
+    i = 0
+    k = 0
+    while i < len(tpl):
+        c = tpl[i]
+        if c == 0:
+            break
+        if c < 0x80:
+            pieces.append(whole(Buf.from_bytes(tpl[i + 1:i + 1 + c]), True))
+            i += 1 + c
+        elif c == 0xc0:
+            arg = argl[k]
+            pieces.extend(render_display(it, arg.value, getattr(arg, 'how', 'new_display')))
+            k += 1
+            i += 1
+        else:
+            raise Unsupported('fmt template opcode 0x%02x' % c)
+    return FmtArgs(pieces)
+
+
+MODELS['Arguments::new'] = _arguments_new
+
+
+@model('slice::clone_from_slice', 'slice::copy_from_slice')
+def _(it, a, info):
+    dst = as_slice(it, a[0])
+    src = as_slice(it, a[1])
+    if not it.ctx.branch(dst.len == src.len):
+        raise RustPanic('source slice length does not match destination slice length', tuple(it.callstack))
+    copy_bytes(it, dst, src, src.len)
+    return unit()
+
+
+@model('slice::fill')
+def _(it, a, info):
+    dst = as_slice(it, a[0])
+    n = conc(dst.len)
+    if n is None or n > 4096:
+        raise Unsupported('fill of symbolic length')
+    for i in range(n):
+        dst.buf.arr = z3.Store(dst.buf.arr, dst.off + i, a[1])
+    return unit()
